@@ -32,12 +32,19 @@ def TailOk (s : St) : Prop :=
   ∀ g ∈ s.segs, g.recAt ≠ 0 → ∀ e ∈ s.h.ents, inSeg g e = true →
     e.size = 8 ∨ isRecord s.segs e = true ∨ e.addr + e.size + 80 ≤ g.base + g.size
 
+/-- fourth missing conjunct (found while proving `sys-extend` / `prepend_alloc`): the first header of a segment is
+never a fencepost.  Otherwise a segment that starts exactly where a fresh mapping ends, with a fencepost as first
+header, would after `sys-extend` have the foot word of `top` directly before a fencepost (breaking `FenceOk`), and
+`prepend-inuse` would clear PINUSE of that fencepost (breaking `shapeOk`). -/
+def HeadOk (s : St) : Prop := ∀ g ∈ s.segs, ∀ e ∈ s.h.ents, e.addr = g.base → e.size ≠ 8
+
 /-- the strengthened state-level invariant -/
 structure SInv (s : St) : Prop where
   wfs : WFS s
   recs : RecsOk s
   fence : FenceOk s
   tail : TailOk s
+  head : HeadOk s
 
 /-- the invariant of histories that IS inductive -/
 def Inv (hs : Hist) : Prop := SInv hs.st ∧ liveOk hs = true
